@@ -265,4 +265,32 @@ theorem dset_same (d : Dict) (k : String) (v : Val) (h : dget d k = some v) : ds
       simp only [dget, lookup_cons_ne _ _ _ _ (fun e => h1 e.symm)] at h
       rw [ih h]
 
+theorem ddel_of_none (d : Dict) (k : String) (h : dget d k = none) : ddel d k = d := by
+  induction d with
+  | nil => rfl
+  | cons x r ih =>
+    obtain ⟨a, b⟩ := x
+    by_cases ha : k = a
+    · subst ha; simp [dget] at h
+    · simp only [dget, lookup_cons_ne _ _ _ _ ha] at h
+      have hne : a ≠ k := fun e => ha e.symm
+      have ih' := ih h
+      simp only [ddel] at ih' ⊢
+      rw [List.filter_cons]
+      simp only [ne_eq, hne, not_false_eq_true, decide_true, if_true]
+      rw [ih']
+
+theorem ddel_dset (d : Dict) (k : String) (v : Val) : ddel (dset d k v) k = ddel d k := by
+  induction d with
+  | nil => simp [dset, ddel]
+  | cons x r ih =>
+    obtain ⟨a, b⟩ := x
+    by_cases ha : a = k
+    · subst ha; simp [dset, ddel]
+    · simp only [dset, if_neg ha]
+      simp only [ddel] at ih ⊢
+      rw [List.filter_cons, List.filter_cons]
+      simp only [ne_eq, ha, not_false_eq_true, decide_true, if_true]
+      rw [ih]
+
 end PyGam.TA
